@@ -3,7 +3,7 @@ from vq.meta import _m
 _m(
     "C12",
     "exploration",
-    "Hypothesis draws four kinds of cases.  (surface) a polar coefficient dictionary over a random subset (1..14) of the 14 "
+    "Hypothesis draws five kinds of cases.  (surface) a polar coefficient dictionary over a random subset (1..14) of the 14 "
     "(n, m) terms of orders 1..5 -- magnitudes log-uniform 1e-3..1e9 A ('raw') or balanced so that every order contributes "
     "comparably at 30 mrad, random sign, 1 in 12 explicitly 0, angles in (-pi, pi] or left out (1 in 8) or given without "
     "their magnitude (1 in 10) -- x wavelength 0.008..0.09 A x coefficients passed as python floats or 0-d float64 tensors x "
@@ -16,14 +16,27 @@ _m(
     "flat, nested under 'aberration_coefs' or mixed; 'defocus': None slot), probe_params re-assignment, check_probe_params, "
     "DirectPtychography(aberration_coefs=), HyperparameterState.current_aberrations(override), HyperparameterState("
     "optimized_keys=), fit_hyperparameters_cross_correlation(aberration_coefs=), grid_search_hyperparameters and "
-    "optimize_hyperparameters with OptimizationParameter ranges.  (fit) BF mask = disc of radius >= 1 px plus random extra "
-    "pixels on a 6..14 x 6..14 detector with isotropic or anisotropic reciprocal sampling, energy 20..300 keV, C10 = +-1..1e5 A, "
+    "optimize_hyperparameters with OptimizationParameter ranges.  (alias_history) ONE params dictionary object (C10 always "
+    "present, 3 in 4 as 'defocus'; keys flat, nested under 'aberration_coefs', or mixed) used 2..4 times by steps drawn from: "
+    "ProbePixelated.from_params / from_array, ProbeParametric.from_params, ProbeDIP.from_model, probe_params assignment on an "
+    "existing model, the coefficient-only sites (validate, standardize, DirectPtychography init / override) on its nested "
+    "dictionary, and re-feeding first.probe_params into ProbeParametric.from_params / ProbePixelated.from_array / "
+    "ProbeDIP.from_pixelated / another model's setter; after EVERY step every model built so far must still carry the "
+    "dictionary's meaning (C10 = -defocus, aliases 1:1, nothing else non-zero, same aberration surface) and every later use "
+    "of the same dictionary must give the first use's result.  (fit) bright-field pixel set on a 6..16 x 6..16 detector: full "
+    "disc, annulus, half disc, half annulus, wedge (0.8..3 rad) or random subset (p 0.25..0.9) of the disc of radius 1..n/2-1 "
+    "px, optical-axis pixel dropped 1 in 2, random extra pixels 1 in 3 -- i.e. mostly sets that are not point-symmetric and "
+    "do not start at the axis pixel; if the set has < 4 pixels or the basis k*lambda has condition number > 30, the half disc "
+    "on the set's side (then the full disc) is added by construction; shifts either from "
+    "DirectPtychography._return_lateral_shifts on that mask or from the harness's float64 quadratic model handed to "
+    "fit_aberrations_from_shifts directly; isotropic or anisotropic reciprocal sampling, energy 20..300 keV, C10 = +-1..1e5 A, "
     "|C12|/|C10| in [0, 0.9], phi12 in (-pi, pi], rotation in (-pi/2+0.01, pi/2-0.01) (3 in 4) or anywhere in [-pi, pi].  "
     "Before the random search the 25 polar symbols and 25 Cartesian labels are each isolated once per wavelength/argument "
     "type, and every alias is sent alone to every site (deterministic enumeration).  A case is NON-TRIVIAL when: surface/cart "
     "-- at least one non-zero coefficient and either >= 2 non-zero coefficients of different radial orders or it is one of "
     "the enumerated singletons; alias -- it contains at least one alias key or an unknown key (or is the reverse "
-    "C10 -> defocus site); fit -- C12 != 0.  distinct = SHA-1 of the canonical JSON of the whole case.",
+    "C10 -> defocus site); alias_history -- at least one alias key and either >= 2 uses of the same dictionary object or a "
+    "re-feed step; fit -- C12 != 0 (and the pixel set is well-conditioned).  distinct = SHA-1 of the canonical JSON of the whole case.",
     [
         "float64 comparisons are relative to the sum of the amplitudes of the terms at each point (2 pi/lambda sum |C_nm| "
         "alpha^(n+1)/(n+1); for gradients 2 pi sum |C_nm| alpha^n (1 + m/(n+1))): tolerance 1e-10 of that unit; largest error "
@@ -34,7 +47,15 @@ _m(
         "atan2(ay, ax) built by the harness; at alpha = 0 the value 0 is asserted for surface, basis and gradient instead",
         "fit round trip runs in float32 (spatial_frequencies, shifts, lstsq): tolerance 1e-4 relative to |C10|+|C12| for the "
         "aberration matrix, 1e-4 rad for the rotation, 1e-4 of the largest shift for the refitted field; largest errors "
-        "measured on the clean tree over 20 000 targeted cases: 2.4e-6, 4.9e-6 rad, 4.8e-6",
+        "measured on the clean tree over 38 000 targeted cases (incl. 21 000 with asymmetric / off-axis pixel sets, basis "
+        "condition number capped at 30): 2.5e-6, 4.9e-6 rad, 5.3e-6",
+        "direct fit mode: the harness's forward model is s = A R(rot) k lambda with A = [[C10+C12 cos2phi, C12 sin2phi], "
+        "[C12 sin2phi, C10-C12 cos2phi]] and R the passive grid rotation [[cos, -sin], [sin, cos]] quantem's "
+        "spatial_frequencies applies; both forward and refit use the harness's own wavelength, so only "
+        "fit_aberrations_from_shifts is under test there",
+        "alias_history: ProbeParametric's learnable copies are only judged on models that were never re-assigned (a "
+        "probe_params assignment after construction does not rebuild them; not part of the claim); coefficient magnitudes "
+        ">= 1e-3 A there because the stored coefficients are also evaluated as a surface",
         "identifiable domain of the fit: |C12| < |C10| (generated ratio <= 0.9) and |rotation| < pi/2 - 0.005; phi12 is "
         "compared modulo pi through the matrix entries (C12 cos 2phi12, C12 sin 2phi12); for |rotation| >= pi/2 only the "
         "refitted shift field is compared (the pair (rotation +- pi, -A) is the same field)",
